@@ -155,8 +155,9 @@ def obligations(tier):
         obs.append(api_ob(prog, name, cls, ctx, _mark_setup(drv)))
     # update(idx, d): every stored field (caches included) of the receiver is scattered from the same-named field of d, so the rows
     # of the result are rows of two invariant objects (the obligation is shared with C12, where it is the field-exhaustiveness rule)
-    from .common import logdomain_ob
+    from .common import logdomain_ob, hidden_state_ob
     obs.append(logdomain_ob(prog, "logdomain"))
+    obs.append(hidden_state_ob(prog, "purity"))
     from .c12 import update_ob
     for cls in ("GaussianPDF", "GaussianDiagPDF"):
         ob = update_ob(prog, cls)
